@@ -279,7 +279,9 @@ def c_preexisting(ctx, case):
         return
     if n > 1 or nbelow > 1 or ncalls > ncallops:
         finding = None
-        if prefix is not None or scope != p.cse_scope.EVALUATION or derived:
+        # (a hand-placed wrapper that differs in its SCOPE only is adopted as a plain one and
+        #  shared by the unchanged library: the recorded finding is about prefixes and subclasses)
+        if prefix is not None or derived:
             try:
                 # explanation test: the duplication is confined to u itself (everything below it
                 # is still shared) and the same list with a plain wrapper is shared entirely
@@ -528,6 +530,25 @@ def workload(ctx):
             ctx.run("C12.tag", (exprs, share))
             if rng.random() < 0.3:
                 ctx.run("C12.tagger", exprs[0])
+        # depth: commuted copies whose operands are DEEP and differ only at the bottom
+        # (((a + b)*c + d)*e ... vs ((a + z)*c + d)*e ...): still one operation, performed once
+        from ..gen import scale as _scale
+        fams = _scale.family_towers(V[0], V[1])
+        for fam in ("sum-in-product", "product-in-sum", "square", "call", "quotient-num", "neg"):
+            for depth in (1, 2, 3, 4, 5, 6, 8, 12):
+                if not ctx.mine("deep-commuted"):
+                    continue
+                A_ = _scale.nest(fams[fam], depth, p.Sum((V[0], V[1])))
+                B_ = _scale.nest(fams[fam], depth, p.Sum((V[0], V[2])))
+                A2, B2 = G.deep_rebuild(A_), G.deep_rebuild(B_)
+                for j, exprs in enumerate([
+                        [p.Product((p.Sum((A_, B_)), 3)), p.Sum((p.Sum((B2, A2)), 1))],
+                        [p.Product((A_, B_)), p.Sum((p.Product((B2, A2)), 1))],
+                        [p.Sum((A_, B_, V[1])), p.Power(p.Sum((V[1], B2, A2)), 2)],
+                        [p.Call(p.Variable("f"), (p.Sum((A_, B_)),)), p.Call(p.Variable("f"), (p.Sum((B2, A2)),))]]):
+                    ctx.case(("deep-commuted", fam, depth, j), True, n=0)
+                    ctx.count("deep_commuted_copies")
+                    ctx.run("C12.tag", (exprs, not ambiguous(exprs)))
         # calls whose FUNCTION is computed (g(a + b)(x)): what is repeated beneath the function
         # is shared like what is repeated beneath an argument
         f_, g_ = p.Variable("f"), p.Variable("g")
@@ -606,6 +627,7 @@ def workload(ctx):
         for k, v in tr.handlers().items():
             ctx.count("handler:" + k, v)
     ctx.floor("computed_function_calls", 30)
+    ctx.floor("deep_commuted_copies", 100)
     ctx.floor("value_compared", 10000)
     ctx.floor("sharing_checked", 1000)
     ctx.floor("handler_entries_observed", 5000)
